@@ -142,6 +142,6 @@ def sem_job(fn, entry, size, props=('C13',), **kw):
 
 JOBS += [
     sem_job('parquet_parse_page_header', 'h_sem_page_header', 144, props=('C13', 'C14')),
-    sem_job('parse_statistics', 'h_sem_statistics', 88),
+    sem_job('parse_statistics', 'h_sem_statistics', 88, props=('C13', 'C16')),   # C16: min/max/null_count reach the reader from the Thrift field the format assigns them
     sem_job('parse_schema_element', 'h_sem_schema_element', 80, props=('C13', 'C17')),   # C17: element accessors return what the file states
 ]
